@@ -1,6 +1,6 @@
 (* Cursor loops of a recursive-descent parser: summaries, the progress rule, and why progress means termination.
-   DEFINITIONS of the summary types (used by the generated NV/gen/ParserLoops.v) followed by the generic theorems.
-   (This file is not extracted; it holds the small generic development the generated data is judged by.)
+   DEFINITIONS ONLY (summary types used by the generated NV/gen/ParserLoops.v, the progress rule, the loop semantics);
+   the generic theorems are in RecoveryLoopsProofs.v.
 
    A loop iteration is summarised by the set of ways its body can reach the back edge or leave the loop:
      PExit      break / return / the loop test is decided false by what the path knows
@@ -74,14 +74,13 @@ Definition on_cycle (g : graph) : list string :=
 Fixpoint strs_eqb (a b : list string) : bool :=
   match a, b with [], [] => true | x :: a', y :: b' => String.eqb x y && strs_eqb a' b' | _, _ => false end.
 
-(* ================================================================ generic theorems *)
-Section CursorLoop.
+(* ================================================================ semantics of a cursor loop (definitions) *)
+Section CursorLoopDefs.
   Variable State : Type.
   Variable pos : State -> nat.          (* token cursor *)
   Variable N : nat.                     (* index of the EOF token: pos s <= N always *)
   Variable guard : State -> bool.       (* the loop test *)
   Variable step : State -> option State.  (* one execution of the body from a state where the test holds; None = left the loop *)
-  Hypothesis pos_le : forall s, pos s <= N.
 
   (* run at most n iterations; None = the loop has terminated *)
   Fixpoint loop (n : nat) (s : State) : option State :=
@@ -90,30 +89,9 @@ Section CursorLoop.
     | S m => if guard s then match step s with None => None | Some s' => loop m s' end else None
     end.
 
-  Lemma loop_more n m s : loop n s = None -> n <= m -> loop m s = None.
-  Proof.
-    revert m s. induction n as [|n IH]; intros m s H Hle; [discriminate|].
-    destruct m as [|m]; [lia|]. cbn in *. destruct (guard s); [|reflexivity].
-    destruct (step s) as [s'|]; [|reflexivity]. apply IH; [exact H|lia].
-  Qed.
-
   (* every iteration either moves the cursor forward or leaves the loop test false *)
   Definition progress_hyp : Prop :=
     forall s s', guard s = true -> step s = Some s' -> pos s < pos s' \/ guard s' = false.
-
-  Theorem loop_terminates : progress_hyp -> forall s, loop (N - pos s + 2) s = None.
-  Proof.
-    intros H s. remember (N - pos s) as k eqn:Ek. revert s Ek.
-    induction k as [k IH] using lt_wf_ind. intros s Ek.
-    replace (k + 2) with (S (k + 1)) by lia. cbn [loop].
-    destruct (guard s) eqn:G; [|reflexivity]. destruct (step s) as [s'|] eqn:E; [|reflexivity].
-    destruct (H s s' G E) as [Hlt|Hg].
-    - pose proof (pos_le s'). apply loop_more with (n := N - pos s' + 2); [|lia]. apply (IH (N - pos s')); [lia|reflexivity].
-    - replace (k + 1) with (S k) by lia. cbn [loop]. rewrite Hg. reflexivity.
-  Qed.
-
-  Corollary loop_terminates_bound : progress_hyp -> forall s, loop (N + 2) s = None.
-  Proof. intros H s. apply loop_more with (n := N - pos s + 2); [apply loop_terminates, H|lia]. Qed.
 
   (* what a path kind of the summary means for one iteration *)
   Definition sem (p : path) (s : State) (r : option State) : Prop :=
@@ -123,64 +101,15 @@ Section CursorLoop.
     | PAdvMaybe => exists s', r = Some s' /\ (pos s < pos s' \/ pos s' = N)     (* effective, or the cursor sits on EOF *)
     | PStuck | PUnknown => True
     end.
+End CursorLoopDefs.
 
-  (* a loop whose summary passes the rule terminates, whatever its body does within the summary *)
-  Theorem summary_terminates : forall l,
-    l_kind l = LCursor -> progresses l = true ->
-    (forall s, guard s = true -> exists p, In p (l_paths l) /\ sem p s (step s)) ->
-    (l_guard_excl_eof l = true -> forall s, pos s = N -> guard s = false) ->
-    forall s, loop (N + 2) s = None.
-  Proof.
-    intros l Hk Hp Hsem Hg. apply loop_terminates_bound. intros s s' G E.
-    destruct (Hsem s G) as (p & Hin & Hs). unfold progresses in Hp. rewrite Hk in Hp.
-    rewrite forallb_forall in Hp. specialize (Hp p Hin). rewrite E in Hs.
-    destruct p; cbn in Hp, Hs; try discriminate.
-    - destruct Hs as (s2 & Heq & Hlt). inversion Heq; subst. left; exact Hlt.
-    - destruct Hs as (s2 & Heq & [Hlt|Heof]); inversion Heq; subst; [left; exact Hlt|right; apply Hg; assumption].
-  Qed.
-End CursorLoop.
-
-(* counted loops: i runs up to a bound that the body does not change *)
-Theorem counted_loop_terminates : forall bound i,
-  loop nat (fun i => Nat.ltb i bound) (fun i => Some (S i)) (bound + 2) i = None.
-Proof.
-  intros bound i.
-  apply (loop_terminates_bound nat (fun i => Nat.min i bound) bound (fun i => Nat.ltb i bound) (fun i => Some (S i))).
-  - intros s. apply Nat.le_min_r.
-  - intros s s' G E. inversion E; subst. left. apply Nat.ltb_lt in G. lia.
-Qed.
-
-(* a rank that strictly decreases along every edge bounds every call chain *)
-Section Ranks.
+(* call chains of a graph *)
+Section ChainDefs.
   Variable g : graph.
-  Variable r : list (string * nat).
-  Hypothesis ok : ranks_ok g r = true.
-
   Definition edge (x y : string) : Prop := exists e, In e g /\ fst e = x /\ In y (snd e).
   Fixpoint chain (l : list string) : Prop :=
     match l with
     | [] => True
     | x :: t => match t with [] => (exists e, In e g /\ fst e = x) | y :: _ => edge x y /\ chain t end
     end.
-
-  Lemma edge_rank x y : edge x y -> exists n m, rank_of r x = Some n /\ rank_of r y = Some m /\ m < n.
-  Proof.
-    intros (e & Hin & Hx & Hy). unfold ranks_ok in ok. rewrite forallb_forall in ok. specialize (ok e Hin).
-    rewrite Hx in ok. destruct (rank_of r x) as [n|]; [|discriminate]. rewrite forallb_forall in ok. specialize (ok y Hy).
-    destruct (rank_of r y) as [m|]; [|discriminate]. apply Nat.ltb_lt in ok. eauto.
-  Qed.
-
-  Lemma node_rank x : (exists e, In e g /\ fst e = x) -> exists n, rank_of r x = Some n.
-  Proof.
-    intros (e & Hin & Hx). unfold ranks_ok in ok. rewrite forallb_forall in ok. specialize (ok e Hin).
-    rewrite Hx in ok. destruct (rank_of r x) as [n|]; [eauto|discriminate].
-  Qed.
-
-  (* a chain starting at rank n has at most n + 1 nodes *)
-  Theorem chain_bounded : forall l x n, chain (x :: l) -> rank_of r x = Some n -> List.length (x :: l) <= S n.
-  Proof.
-    induction l as [|y t IH]; intros x n Hc Hr; [cbn; lia|].
-    cbn [chain] in Hc. destruct Hc as [He Hc]. destruct (edge_rank x y He) as (n' & m & Hn & Hm & Hlt).
-    rewrite Hr in Hn. inversion Hn; subst. specialize (IH y m Hc Hm). cbn [List.length] in *. lia.
-  Qed.
-End Ranks.
+End ChainDefs.
